@@ -68,6 +68,7 @@ func (o *vsoOut) emit(v interface{}) {
 const (
 	vsoHoldShard   = 9
 	vsoFollowShard = 7
+	vsoHold2Shard  = 2000 // beyond the observer's initial 1024 counters
 )
 
 type vsoStream struct {
@@ -213,6 +214,12 @@ func vsoProbe(c vsoCase, out *vsoOut, followBound time.Duration) error {
 	if hw != "served-open" {
 		return fmt.Errorf("rig not usable: the first well-formed stream was not served (%s %v)", hw, herr)
 	}
+	// a second held stream whose id lies beyond the observer's initial capacity (in the grown part of the counter slice): its
+	// bookkeeping must survive whatever the probed open and its close do to the slice
+	hold2, hw2, herr2, _ := vsoOpen(rig, c.Srv, vsoWellFormed(2, vsoHold2Shard), 10*time.Second)
+	if hw2 != "served-open" {
+		return fmt.Errorf("rig not usable: the second well-formed stream was not served (%s %v)", hw2, herr2)
+	}
 	open := map[string]interface{}{"ev": "Open", "id": c.ID, "n": c.N, "mode": c.Mode, "srv": c.Srv, "key": c.Key, "val": c.Val,
 		"absent": c.Absent, "numeric": c.Numeric, "limbs": c.Limbs}
 	out.emit(open)
@@ -251,7 +258,7 @@ func vsoProbe(c vsoCase, out *vsoOut, followBound time.Duration) error {
 	out.emit(res)
 	// ---- a well-formed stream opened afterwards
 	f, fw, ferr, ftook := vsoOpen(rig, c.Srv, vsoWellFormed(4, vsoFollowShard), followBound)
-	fu := map[string]interface{}{"ev": "FollowUp", "id": c.ID, "ms": ftook.Milliseconds(), "holdId": vsoHoldShard, "followId": vsoFollowShard,
+	fu := map[string]interface{}{"ev": "FollowUp", "id": c.ID, "ms": ftook.Milliseconds(), "holdId": vsoHoldShard, "hold2Id": vsoHold2Shard, "followId": vsoFollowShard,
 		"detail": "", "during": []int{}, "after": []int{}}
 	closeBound := resultBound
 	switch fw {
@@ -281,6 +288,9 @@ func vsoProbe(c vsoCase, out *vsoOut, followBound time.Duration) error {
 		}
 	}
 	fu["holdEnd"], _ = vsoClose(hold, closeBound)
+	if e2, _ := vsoClose(hold2, closeBound); e2 != "ok" {
+		fu["holdEnd"] = e2
+	}
 	if fu["printer"] == "ok" {
 		_, fu["after"] = vsoPrinter(obs, pb)
 	}
@@ -375,16 +385,19 @@ func TestVerifStreamObsExtra(t *testing.T) {
 			for round := 0; round < rounds; round++ {
 				id++
 				var wg sync.WaitGroup
-				var bad atomic.Int32
+				var bad, wedged atomic.Int32
 				start := make(chan struct{})
 				for w := 1; w <= 8; w++ {
 					wg.Add(1)
 					go func(w int) {
 						defer wg.Done()
 						<-start
-						for k := 0; k < 60; k++ {
-							if vsoCall(impl, w, &vlCapClient{}, 10*time.Second) != "served" {
+						for k := 0; k < 60 && wedged.Load() == 0; k++ {
+							if r := vsoCall(impl, w, &vlCapClient{}, 10*time.Second); r != "served" {
 								bad.Add(1)
+								if r == "hang" { // wedged: further calls only wait for their bound
+									wedged.Add(1)
+								}
 							}
 						}
 					}(w)
@@ -395,18 +408,28 @@ func TestVerifStreamObsExtra(t *testing.T) {
 					defer wg.Done()
 					<-start
 					// every id is more than 9/8 of the size the previous one left behind: each forces a grow (allocate, copy, publish)
-					for g := 1100 * (round + 1); g < 6000000; g = g*2 + 77 {
-						if vsoCall(impl, g, &vlCapClient{}, 20*time.Second) != "served" {
+					for g := 1100 * (round + 1); g < 6000000 && wedged.Load() == 0; g = g*2 + 77 {
+						if r := vsoCall(impl, g, &vlCapClient{}, 20*time.Second); r != "served" {
 							bad.Add(1)
+							if r == "hang" {
+								wedged.Add(1)
+							}
 						}
 						grows++
 					}
 				}()
 				close(start)
 				wg.Wait()
-				pr, after := vsoPrinter(obs, 10*time.Second)
+				pb := 10 * time.Second
+				if wedged.Load() > 0 {
+					pb = time.Second
+				}
+				pr, after := vsoPrinter(obs, pb)
 				out.emit(map[string]interface{}{"ev": "Concurrent", "id": id, "mode": mode, "srv": srv, "round": round, "workers": 8, "grows": grows,
 					"notserved": int(bad.Load()), "printer": pr, "after": after})
+				if wedged.Load() > 0 {
+					break
+				}
 			}
 			rig.close()
 			debug.FreeOSMemory()
